@@ -250,6 +250,7 @@ def c08_impl(case):
         ctxq = an(entity(x, x.a > 0))
     its = {}
     obs = []
+    raised = []
     ops = case['ops']
 
     def observe():
@@ -303,6 +304,11 @@ def c08_impl(case):
                         next(its[op[1]])
                     except StopIteration:
                         pass
+                    except Exception as e:
+                        # an exception from the data layer (two live iterators over queries that share a lazily
+                        # consumed domain) is not a statement about the MODE: the iterator is finished, the mode is
+                        # observed as after any other step; counted in the evidence
+                        raised.append(type(e).__name__)
                 elif k == 'cl':
                     its[op[1]].close()
                 elif k == 'drop':
@@ -322,7 +328,7 @@ def c08_impl(case):
         its.clear()
         gc.collect()
         impl.reset_library_state()
-    return obs
+    return obs + ['RAISED:' + r for r in raised]
 
 
 def c08(report, rng, tier, findings):
@@ -340,6 +346,9 @@ def c08(report, rng, tier, findings):
         report.evaluations += 1
         if line.startswith('ERR'):
             raise HarnessError('driver: ' + line + ' :: ' + c08_sexp(case))
+        for r in [o for o in obs if o.startswith('RAISED:')]:
+            report.count('iterator_advance_raised_' + r[7:])
+        obs = [o for o in obs if not o.startswith('RAISED:')]
         model = line.split('\t')[1].split('|')
         # the implementation observes at enter, (inner...), after leave: same sequence as one observation per op
         kinds = [op[0] for op in case['ops']]
@@ -359,7 +368,9 @@ def c08(report, rng, tier, findings):
                                              'observed': obs, 'expected': model}))
     return ['EqlModel.Props.C08'], [
         "single thread (other threads / asyncio tasks have their own context)",
-        "CPython runs a generator's finally block at close()/finalisation; the position of that step is universally quantified"]
+        "CPython runs a generator's finally block at close()/finalisation; the position of that step is universally quantified",
+        "an exception raised by the data layer when an iterator is advanced (counted as iterator_advance_raised_*) is not a "
+        "statement about the mode: the mode observables after that step are still compared"]
 
 
 # ------------------------------------------------------------------------------------------- C14
